@@ -38,6 +38,17 @@ func genCase(t *rapid.T) Case {
 			c.Cmds = append(c.Cmds, script.CMsg{K: "S"})
 		}
 	}
+	if rapid.IntRange(0, 3).Draw(t, "unsynced-error-at-end") == 0 {
+		// a failing extended message that is NOT followed by Sync: the session ends while the server is discarding
+		switch rapid.IntRange(0, 2).Draw(t, "unsynced-kind") {
+		case 0:
+			c.Cmds = append(c.Cmds, script.CMsg{K: "B", Name: "no-such-statement"})
+		case 1:
+			c.Cmds = append(c.Cmds, script.CMsg{K: "E", Portal: "no-such-portal"})
+		default:
+			c.Cmds = append(c.Cmds, script.CMsg{K: "P", Name: "x", Query: "perr"})
+		}
+	}
 	if rapid.Bool().Draw(t, "extra-params") {
 		c.Params = [][2]string{{"application_name", gen.CString(40).Draw(t, "app")}}
 	}
